@@ -131,25 +131,26 @@ def run(ctx):
                construct="self.microseconds = %s" % (src(us[0].ast.value) if us else "?"))
 
     # ---------------------------------------------------------------- C09.COERCE
-    raises = [n for n in two if n.kind == "stmt" and isinstance(n.ast, ast.Raise)]
-    okt = any(src(r.ast.exc).startswith("TypeError") and any((not tv) and "isinstance(dt1, datetime.date)" in t and "isinstance(dt2, datetime.date)" in t
-                                                           for t, tv in facts.at(r)) for r in raises)
-    ctx.ob("C09.COERCE", init, "operands that are not both dates raise TypeError", okt, construct="raise TypeError on non-dates")
-    tchk = [n for n in two if n.kind == "branch" and "isinstance(dt1, datetime.date)" in src(n.ast)]
-    ctx.ob("C09.COERCE", init, "the type check precedes the month arithmetic", bool(tchk) and bool(initial) and cfg.dominates(tchk, initial[0]),
+    # the prefix of the two-date branch (everything before the first field is stored) as a table: what raises, what dt1 / dt2 become
+    from ..rules_common import check_region_table
+
+    def coerce_prefix(fnode):
+        for st in fnode.body:
+            if isinstance(st, ast.If) and sorted(x.id for x in ast.walk(st.test) if isinstance(x, ast.Name)) == ["dt1", "dt2"]:
+                out = []
+                for b_ in st.body:
+                    if any(isinstance(x, ast.Attribute) and isinstance(x.ctx, ast.Store) and isinstance(x.value, ast.Name) and x.value.id == "self" for x in ast.walk(b_)):
+                        break
+                    out.append(b_)
+                return out
+        return []
+    check_region_table(ctx, "C09.COERCE", init, coerce_prefix, "operands that are not both dates raise TypeError before any arithmetic; a date mixed with a datetime is "
+                       "promoted to a datetime (midnight) exactly when the two operands differ in kind, whichever side it is on", "two-date form: type check and promotion",
+                       final_names=["dt1", "dt2"])
+    tchk = [n for n in two if n.kind == "stmt" and isinstance(n.ast, ast.Raise) and src(n.ast.exc).startswith("TypeError")]
+    ctx.ob("C09.COERCE", init, "the type check precedes the month arithmetic", bool(tchk) and bool(initial) and all(initial[0] not in cfg.reach([t_]) for t_ in tchk) and
+           cfg.path_avoiding(cfg.entry, [initial[0]], avoid_nodes=[b_ for t_ in tchk for b_, lab in t_.pred]) is None,
            construct="type check dominates month difference")
-    prom = {}
-    for n in two:
-        if n.kind == "stmt" and isinstance(n.ast, ast.Assign) and "fromordinal" in src(n.ast.value):
-            t = src(n.ast.targets[0])
-            okp = src(n.ast.value).replace(" ", "") == "datetime.datetime.fromordinal(%s.toordinal())" % t and \
-                (("isinstance(%s, datetime.datetime)" % t, False) in facts.at(n))
-            prom[t] = okp and cfg.dominates([n], initial[0]) is not None
-    ctx.ob("C09.COERCE", init, "a date mixed with a datetime is promoted to a datetime (midnight) before the arithmetic, whichever side it is on",
-           prom.get("dt1") is True and prom.get("dt2") is True, construct="promotion of dt1 / dt2", detail=str(prom))
-    mix = [n for n in two if n.kind == "branch" and "isinstance(dt1, datetime.datetime)" in src(n.ast) and "isinstance(dt2, datetime.datetime)" in src(n.ast)]
-    ctx.ob("C09.COERCE", init, "promotion happens exactly when the two operands differ in kind", bool(mix) and "!=" in src(mix[0].ast),
-           construct="mixed-kind test: %s" % (src(mix[0].ast) if mix else "?"))
 
     # ---------------------------------------------------------------- C09.NORM
     fixcalls = [n for n in cfg.live_nodes() if n.kind == "stmt" and isinstance(n.ast, ast.Expr) and isinstance(n.ast.value, ast.Call)
